@@ -48,8 +48,10 @@
 //!
 //! Keys: `C04:<owner>:<accessor>:<class>`; owner = tx kind (`Chargeable` for the cached
 //! input/output/witness tables shared by all kinds), `InputRepr::Coin|Contract|Message`
-//! for the per-wire-type tables, `Input::Variant` or `Output::Variant`; class in {offset, bytes, length, missing, out-of-range,
-//! cached-differs, encoding, panic}. Within one transaction a wrong offset whose error
+//! for the per-wire-type tables, `Input::Variant` or `Output::Variant`; class in {offset,
+//! bytes, length, missing, out-of-range, cached-differs, stale-after-re-precompute (owner
+//! = tx kind, accessor = the first one in encoding order that differs), encoding,
+//! panic}. Within one transaction a wrong offset whose error
 //! (reported − expected) equals an error already reported for an earlier field of the
 //! same transaction is counted as a cascade, not as another violation.
 
